@@ -99,6 +99,8 @@ impl QueuingExecutor {
         while did_some_work {
             did_some_work = false;
             while let Ok(task) = self.spawn_queue.try_recv() {
+                #[cfg(crux_verif)]
+                crate::verif::point("exec.run_all.spawned");
                 let task_id = self
                     .tasks
                     .lock()
@@ -108,6 +110,8 @@ impl QueuingExecutor {
                 did_some_work = true;
             }
             while let Ok(task_id) = self.ready_queue.try_recv() {
+                #[cfg(crux_verif)]
+                crate::verif::point("exec.run_all.ready");
                 match self.run_task(task_id) {
                     RunTask::Unavailable => {
                         // We were unable to run the task as it is (presumably) being run on
@@ -119,6 +123,8 @@ impl QueuingExecutor {
                         // FIXME: are we potentially sending ourselves `Unavailable` and reading it
                         // in a loop - busy looping here?
                         self.ready_sender.send(task_id).expect("could not requeue");
+                        #[cfg(crux_verif)]
+                        crate::verif::point("exec.unavailable");
                     }
                     RunTask::Missing => {
                         // This is possible if a naughty future sends a wake notification while
@@ -144,6 +150,8 @@ impl QueuingExecutor {
 
         // free the mutex so other threads can make progress
         drop(lock);
+        #[cfg(crux_verif)]
+        crate::verif::point("exec.run_task.taken");
 
         let waker = Arc::new(TaskWaker {
             task_id,
@@ -154,6 +162,8 @@ impl QueuingExecutor {
 
         // poll the task
         if task.as_mut().poll(context).is_pending() {
+            #[cfg(crux_verif)]
+            crate::verif::point("exec.run_task.pending");
             // If it's still pending, put the future back in the slot
             self.tasks
                 .lock()
@@ -163,10 +173,24 @@ impl QueuingExecutor {
                 .replace(task);
             RunTask::Suspended
         } else {
+            #[cfg(crux_verif)]
+            crate::verif::point("exec.run_task.completed");
             // otherwise the future is completed and we can free the slot
             self.tasks.lock().unwrap().remove(*task_id as usize);
             RunTask::Completed
         }
+    }
+}
+
+#[cfg(crux_verif)]
+impl QueuingExecutor {
+    /// (occupied task slots, ready queue length, spawn queue length)
+    pub(crate) fn verif_stats(&self) -> (usize, usize, usize) {
+        (
+            self.tasks.lock().expect("Task slab poisoned").len(),
+            self.ready_queue.len(),
+            self.spawn_queue.len(),
+        )
     }
 }
 
